@@ -46,7 +46,12 @@ func (b *builder) fresh(prefix string) string {
 // leaf code: 0 = terminal with symbolic label; 1..n = reference to rule i-1; n+1, n+2 = two undefined names
 func (b *builder) leaf(code int) *mnode {
 	if code == 0 {
-		b.t.AddCharacter("a")
+		// alternately an ASCII and a non-ASCII character (the emitter escapes them differently)
+		if b.seq%2 == 0 {
+			b.t.AddCharacter("\u00e9")
+		} else {
+			b.t.AddCharacter("a")
+		}
 		var lab tree.Type
 		if b.fewLabels {
 			lab = pick(b.fresh("leaf"), tree.TypeCharacter, tree.TypeNil, tree.TypeAction)
@@ -408,6 +413,24 @@ func compileOnce(t *tree.Tree) string {
 func Deterministic(n, r0, r1, r2, few int) {
 	codes := []int{r0, r1, r2}
 	strict := rt.Bool("strict")
+	if !rt.Symbolic() {
+		// native replay (race detector on): two generations of independent trees at the same time,
+		// before anything else has run in this process (so that no cache is warm yet)
+		for round := 0; round < 6; round++ {
+			done := make(chan bool, 2)
+			for k := 0; k < 2; k++ {
+				go func() {
+					tk, _ := buildTree(n, codes, few)
+					tk.Strict = strict
+					var out bytes.Buffer
+					_ = tk.Compile("out.go", []string{"peg"}, &out)
+					done <- true
+				}()
+			}
+			<-done
+			<-done
+		}
+	}
 	t1, _ := buildTree(n, codes, few)
 	t1.Strict = strict
 	rt.Actor(1)
@@ -431,23 +454,6 @@ func Deterministic(n, r0, r1, r2, few int) {
 		rt.EnvSet("wg.defer", "")
 		rt.EnvSet("maporder", "")
 		rt.Assert("output-deterministic", got == ref)
-	}
-	if !rt.Symbolic() {
-		// native replay (race detector on): two generations of independent trees at the same time
-		for round := 0; round < 6; round++ {
-			done := make(chan bool, 2)
-			for k := 0; k < 2; k++ {
-				go func() {
-					tk, _ := buildTree(n, codes, few)
-					tk.Strict = strict
-					var out bytes.Buffer
-					_ = tk.Compile("out.go", []string{"peg"}, &out)
-					done <- true
-				}()
-			}
-			<-done
-			<-done
-		}
 	}
 	rt.Assert("analysis-tasks-write-disjoint", rt.FootprintsDisjoint(100, 101))
 	rt.Assert("independent-generations-write-disjoint", rt.FootprintsDisjoint(1, 2))
